@@ -202,16 +202,16 @@ package shard
 // re-opened the blob storage (read-only as the mode says: C43's rule on Open below).
 //@ ghost pred blobStorageReopened() bool
 //@ callrule c14_blob_storage_reopen in (*Shard).setModeStorage
-//@   property C14
+//@   property C14 C43
 //@   callee (common.Storage).Open
 //@   pureeffect
 //@   defines err == nil ==> blobStorageReopened()
 //@ callrule c14_storage_switch_collaborators in (*Shard).setModeStorage
-//@   property C14
+//@   property C14 C43
 //@   callee (common.Storage).Close, (common.Storage).Init, (mode.Mode).*, fmt.Errorf
 //@   pureeffect
 //@ func (*Shard).setModeStorage
-//@   property C14
+//@   property C14 C43
 //@   ensures [storage_reopened_unless_the_mode_in_force_is_the_requested_one] err == nil && m != old(s.info.Mode) ==> blobStorageReopened()
 
 // ---- C43: the reported mode changes only when every component switched.
